@@ -70,11 +70,16 @@ impl Previewer {
                 let vscroll = pos.v_scroll.calc_fixed_size(usize::MAX, 0);
                 let voffset = pos.v_offset.calc_fixed_size(height, 0);
 
+                // offsets and content change together, under the content lock (see act_scroll_down),
+                // and the initial offset is kept inside the new content just like a scroll action is
+                let mut content = content_clone.lock();
+                let vscroll = min(max(vscroll, voffset) - voffset, max(lines.len(), 1) - 1);
                 hscroll_offset_clone.store(max(1, max(hscroll, hoffset) - hoffset), Ordering::SeqCst);
-                vscroll_offset_clone.store(max(1, max(vscroll, voffset) - voffset), Ordering::SeqCst);
-                *content_clone.lock() = lines;
+                vscroll_offset_clone.store(max(1, vscroll), Ordering::SeqCst);
+                *content = lines;
                 #[cfg(feature = "verif")]
-                verif_log_content(&content_clone.lock(), &vscroll_offset_clone);
+                verif_log_content(&content, &vscroll_offset_clone);
+                drop(content);
 
                 callback();
             })
@@ -244,6 +249,9 @@ impl Previewer {
     }
 
     fn act_scroll_down(&mut self, diff: i32) {
+        // hold the content lock for the whole read-modify-write: the preview callback replaces
+        // content and offset under the same lock, so a stale offset can never overwrite a fresh one
+        let content = self.content_lines.lock();
         let vscroll_offset = self.vscroll_offset.load(Ordering::SeqCst);
         let new_offset = if diff > 0 {
             vscroll_offset + diff as usize
@@ -251,7 +259,7 @@ impl Previewer {
             vscroll_offset - min((-diff) as usize, vscroll_offset)
         };
 
-        let new_offset = min(new_offset, max(self.content_lines.lock().len(), 1) - 1);
+        let new_offset = min(new_offset, max(content.len(), 1) - 1);
         #[cfg(feature = "verif")]
         crate::verif::sched::point("pv.scroll.store");
         self.vscroll_offset.store(max(new_offset, 1), Ordering::SeqCst);
